@@ -22,7 +22,8 @@ THEOREMS = [
     'CC.C16_short', 'CC.C16_short_no_new_branch', 'CC.C16_open', 'CC.C16_switch_ground',
     'CC.C16_remove_element', 'CC.C16_zero_voltage_spec', 'CC.C16_zero_current_spec',
     'CC.C16_reported_short', 'CC.C16_reported_open',
-    'CC.step_sound', 'CC.fold_sound', 'CC.shortPairs_equipotential',
+    'CC.step_sound', 'CC.contractAll_sound', 'CC.shortPairs_equipotential',
+    'CC.C16_short_complete', 'CC.C16_short_complete_nodes', 'CC.contractAll_complete',
 ]
 THEOREMS += ['CC.C16_gen_construct', 'CC.C16_gen_keep', 'CC.C16_gen_is_zero_node', 'CC.C16_gen_switchGround', 'CC.C16_gen_removeElement',
     'CC.C16_gen_removeOpen', 'CC.C16_gen_contractStep', 'CC.C16_gen_shortPairs', 'CC.C16_gen_removeShort',
@@ -278,7 +279,8 @@ def gen_case(rng):
     return desc, fn, keep_ids, arg
 
 CORPUS = [
-    # stale pair: S1 (a,b), S2 (c,a) — the second pair renames c to a label that no longer exists
+    # chained pairs: S1 (a,b), S2 (c,a) — when S2's turn comes its node a has already been renamed to b (the loop must
+    # see the pair as (c,b); with the pair list computed once S2 was left behind as S2(a,b))
     (dict(zero='z', branches=[dict(n1='a', n2='z', id='R1', kind='resistor', args=dict(R=2.0)),
                               dict(n1='c', n2='z', id='R2', kind='resistor', args=dict(R=4.0)),
                               dict(n1='a', n2='b', id='S1', kind='short', args={}),
